@@ -377,6 +377,7 @@ type side struct {
 	params     []Val
 	prefix     string
 	loop       int // > 0: only one iteration of this loop is executed
+	byContract bool // the side is represented by its (separately verified) contract, not its body
 	regionExit *State
 }
 
@@ -393,7 +394,12 @@ func splitLoopSpec(s string) (string, int) {
 }
 
 // initSide creates the symbolic inputs of one side of a pair lemma.
-func (x *Exec) initSide(v *Verifier, pkg, key, prefix string) (*side, error) {
+func (x *Exec) initSide(v *Verifier, pkg, key, prefix string, assumeReq bool) (*side, error) {
+	byContract := false
+	if f := strings.Fields(key); len(f) >= 2 && f[len(f)-1] == "contract" {
+		byContract = true
+		key = strings.Join(f[:len(f)-1], " ")
+	}
 	key, loopN := splitLoopSpec(key)
 	fn := v.funcs[pkg+":"+key]
 	if fn == nil {
@@ -407,8 +413,11 @@ func (x *Exec) initSide(v *Verifier, pkg, key, prefix string) (*side, error) {
 	for i, p := range fn.Params {
 		fr.vals[p] = params[i]
 	}
+	if byContract && fc == nil {
+		return nil, fmt.Errorf("side %s is used by contract but has none", key)
+	}
 	env0 := x.frameEnv(fr, st, token.NoPos)
-	if fc != nil {
+	if fc != nil && assumeReq {
 		for _, r := range fc.Requires {
 			t, err := x.specBool(env0, r.Expr)
 			if err == nil {
@@ -416,7 +425,7 @@ func (x *Exec) initSide(v *Verifier, pkg, key, prefix string) (*side, error) {
 			}
 		}
 	}
-	sd := &side{fn: fn, fr: fr, st: st, params: params, prefix: prefix, loop: loopN}
+	sd := &side{fn: fn, fr: fr, st: st, params: params, prefix: prefix, loop: loopN, byContract: byContract}
 	if loopN > 0 {
 		// the region's start state must exist before the premises are evaluated (they mention locals)
 		x.prefix = prefix
@@ -477,12 +486,12 @@ func (v *Verifier) genPair(p *Pair, combo []int64, mustWrap map[string]bool) *Ex
 	x.splitLabel = strings.Join(labels, ",")
 	lp, lk := splitPkgKey(p.Pkg, p.Left, v.modPath)
 	rp, rk := splitPkgKey(p.Pkg, p.Right, v.modPath)
-	ls, err := x.initSide(v, lp, lk, "l_")
+	ls, err := x.initSide(v, lp, lk, "l_", true)
 	if err != nil {
 		x.bindingError("pair left "+p.Left, err.Error(), p.File, p.Line)
 		return x
 	}
-	rs, err := x.initSide(v, rp, rk, "r_")
+	rs, err := x.initSide(v, rp, rk, "r_", !p.Sequential)
 	if err != nil {
 		x.bindingError("pair right "+p.Right, err.Error(), p.File, p.Line)
 		return x
@@ -522,6 +531,22 @@ func (v *Verifier) genPair(p *Pair, combo []int64, mustWrap map[string]bool) *Ex
 		// equalities between a right-side input and a left-side input additionally identify the two
 		// symbols (the right side then computes over the left side's names: congruence for free)
 		for _, c := range conjuncts(a.Expr) {
+			// a premise that is a bare Boolean input (l.even, !r.even) fixes that input
+			neg := false
+			ce := c
+			if ue, ok := ce.(*ast.UnaryExpr); ok && ue.Op == token.NOT {
+				neg, ce = true, ue.X
+			}
+			if rootSide(ce) != "" {
+				if bv, err := x.spec(env, ce); err == nil && len(bv.L) == 1 && isBoolType(bv.Typ) && isAtom(bv.L[0]) {
+					if neg {
+						x.addSubst(bv.L[0], "false")
+					} else {
+						x.addSubst(bv.L[0], "true")
+					}
+					continue
+				}
+			}
 			be, ok := c.(*ast.BinaryExpr)
 			if !ok || be.Op != token.EQL {
 				continue
@@ -535,10 +560,37 @@ func (v *Verifier) genPair(p *Pair, combo []int64, mustWrap map[string]bool) *Ex
 			}
 			lv, e1 := x.spec(env, lhs)
 			rv, e2 := x.spec(env, rhs)
-			if e1 != nil || e2 != nil || len(lv.L) != 1 || len(rv.L) != 1 || lv.L[0] == rv.L[0] {
+			if e1 != nil || e2 != nil || len(lv.L) != len(rv.L) || len(lv.L) == 0 {
 				continue
 			}
-			x.addSubst(rv.L[0], lv.L[0])
+			for k := range lv.L {
+				if lv.L[k] != rv.L[k] && isAtom(rv.L[k]) {
+					x.addSubst(rv.L[k], lv.L[k])
+				}
+			}
+		}
+	}
+	// a right-side parameter identified with a left-side term is replaced by it outright
+	for _, rs := range []*side{ls, rs} {
+		if len(x.subst) == 0 {
+			break
+		}
+		for i := range rs.params {
+			pv := rs.params[i]
+			changed := false
+			nl := append([]string{}, pv.L...)
+			for k, t := range nl {
+				if lit, ok := x.subst[t]; ok {
+					nl[k] = lit
+					changed = true
+				}
+			}
+			if changed {
+				pv.L = nl
+				rs.params[i] = pv
+				rs.fr.params[i] = pv
+				rs.fr.vals[rs.fn.Params[i]] = pv
+			}
 		}
 	}
 	ls.st.pc = pre.pc
@@ -557,10 +609,45 @@ func (v *Verifier) genPair(p *Pair, combo []int64, mustWrap map[string]bool) *Ex
 			}
 			return sd.fr.entry, exit, nil
 		}
+		if sd.byContract {
+			exit := sd.st.clone()
+			results := x.applyContractR(sd.fr, exit, sd.fn, sd.fr.fc, sd.params, token.NoPos)
+			return sd.fr.entry, exit, results
+		}
 		exit, results := x.runFunc(sd.fr, sd.st.clone())
 		return sd.fr.entry, exit, results
 	}
 	lentry, lexit, lres := run(ls)
+	if p.Sequential {
+		// composition: the right side starts in the left side's exit state; its pre-condition is
+		// an obligation there, not a premise
+		nst := lexit.clone()
+		nst.cells = rs.st.cells
+		nst.pc = smtAnd(lexit.pc, rs.st.pc)
+		rs.st = nst
+		if rs.fr.fc != nil {
+			env0 := &Env{x: x, vars: map[string]Val{}, st: nst, old: nst, fn: rs.fn}
+			for i, prm := range rs.fn.Params {
+				env0.vars[prm.Name()] = rs.params[i]
+			}
+			env0.oldVars = env0.vars
+			for _, r := range rs.fr.fc.Requires {
+				t, err := x.specBool(env0, r.Expr)
+				if err != nil {
+					x.bindingError(fmt.Sprintf("requires %q of %s", r.Src, rs.fn.Name()), err.Error(), r.File, r.Line)
+					continue
+				}
+				var tags []string
+				for _, a := range p.Asserts {
+					tags = append(tags, a.Tags...)
+				}
+				o := x.oblige(nst, "pair-pre", tags, token.NoPos, t, rs.fn.Name()+": "+r.Src)
+				o.Pos = fmt.Sprintf("%s:%d", p.File, p.Line)
+				o.Timeout = p.Timeout
+				x.assume(nst, t)
+			}
+		}
+	}
 	rentry, rexit, rres := run(rs)
 	st := &State{cells: map[*ssa.Alloc]Val{}, mem: map[string]string{}, epoch: "P", pc: smtAnd(lexit.pc, rexit.pc)}
 	env2 := &Env{x: x, sides: map[string]*Env{"l": ls.env(x, lexit, lentry, lres), "r": rs.env(x, rexit, rentry, rres)}, vars: map[string]Val{}, st: st, old: st, post: true}
@@ -584,6 +671,8 @@ func (v *Verifier) genPair(p *Pair, combo []int64, mustWrap map[string]bool) *Ex
 		o := x.oblige(st, "pair", a.Tags, token.NoPos, t, a.Src)
 		o.Pos = fmt.Sprintf("%s:%d", a.File, a.Line)
 		o.Timeout = p.Timeout
+		// later assertions may use earlier ones (each is an obligation of its own)
+		x.assume(st, t)
 	}
 	return x
 }
